@@ -79,6 +79,13 @@ func (eval Evaluator) ExternalProduct(op0 *rlwe.Ciphertext, op1 *Ciphertext, opO
 		eval.BasisExtender.ModDownQPtoQNTT(levelQ, levelP, c1QP.Q, c1QP.P, opOut.Value[1])
 
 	}
+
+	// Every path above accumulates in the NTT domain: the result goes back to the domain of the input.
+	if !op0.IsNTT {
+		ringQ := eval.GetRLWEParameters().RingQ().AtLevel(levelQ)
+		ringQ.INTT(opOut.Value[0], opOut.Value[0])
+		ringQ.INTT(opOut.Value[1], opOut.Value[1])
+	}
 }
 
 // fitsExternalProduct32Bit reports whether the 32-bit path can be taken for the modulus q and the given number
@@ -113,7 +120,12 @@ func (eval Evaluator) externalProduct32Bit(ct0 *rlwe.Ciphertext, rgsw *Ciphertex
 	// (a, b) + (c0 * rgsw[0][0], c0 * rgsw[0][1])
 	// (a, b) + (c1 * rgsw[1][0], c1 * rgsw[1][1])
 	for i, el := range rgsw.Value {
-		ringQ.INTT(ct0.Value[i], eval.BuffInvNTT)
+		// The digits are taken in the coefficient domain.
+		if ct0.IsNTT {
+			ringQ.INTT(ct0.Value[i], eval.BuffInvNTT)
+		} else {
+			eval.BuffInvNTT.CopyLvl(0, ct0.Value[i])
+		}
 		for j := range el.Value[0] {
 			// TODO: center values if mask = 0
 			ring.MaskVec(eval.BuffInvNTT.Coeffs[0], j*pw2, mask, cw)
@@ -155,7 +167,12 @@ func (eval Evaluator) externalProductInPlaceSinglePAndBitDecomp(ct0 *rlwe.Cipher
 
 	// (a, b) + (c0 * rgsw[k][0], c0 * rgsw[k][1])
 	for k, el := range rgsw.Value {
-		ringQ.INTT(ct0.Value[k], eval.BuffInvNTT)
+		// The digits are taken in the coefficient domain.
+		if ct0.IsNTT {
+			ringQ.INTT(ct0.Value[k], eval.BuffInvNTT)
+		} else {
+			eval.BuffInvNTT.CopyLvl(ringQ.Level(), ct0.Value[k])
+		}
 		cw := eval.BuffQP[0].Q.Coeffs[0]
 		cwNTT := eval.BuffBitDecomp
 		for i := 0; i < BaseRNSDecompositionVectorSize; i++ {
